@@ -61,7 +61,20 @@ function obs() {
   if (ex !== e.length) return {err: "Export() has " + ex + " entries"};
   return {size: m.size, entries: e};
 }
+// construction from an array through a user-defined add / set that changes the array: the array iterator is live
+function ctorLive() {
+  var arr = [1, 2], S = class extends Set { add(v) { if (v === 1 && arr.length < 3) arr.push(3); return super.add(v); } };
+  if (new S(arr).size !== 3) return "new Set(array) with a user-defined add that pushes to the array: the pushed element is not added";
+  var arr2 = [1, 2, 3], S2 = class extends Set { add(v) { if (v === 1) arr2.length = 1; return super.add(v); } };
+  if (new S2(arr2).size !== 1) return "new Set(array) with a user-defined add that truncates the array: removed elements are still added";
+  var a = {}, b = {}, c = {}, arr3 = [a, b], W = class extends WeakSet { add(v) { if (v === a) arr3.push(c); return super.add(v); } };
+  if (!new W(arr3).has(c)) return "new WeakSet(array) with a user-defined add that pushes to the array";
+  var arr4 = [[1, 1], [2, 2]], M = class extends Map { set(k, v) { if (k === 1 && arr4.length < 3) arr4.push([3, 3]); return super.set(k, v); } };
+  if (new M(arr4).size !== 3) return "new Map(array) with a user-defined set that pushes to the array";
+  return null;
+}
 function reset() {
+  var ce = ctorLive(); if (ce) throw new Error(ce);
   m = INSTANCE === "map" ? new Map() : new Set();
   iters = [];
   sym = {}; objKeys = {};
